@@ -229,7 +229,7 @@ Print Assumptions v0_differs.
 
 Theorem v0_on_empty : forall cfg c v,
   to_value (k_kind c) (k_arg c) = Some (inr v) -> mv_count v = 0 ->
-  client_line cfg c = Some (inl InvalidInput) /\
+  client_line cfg c = Some (inl EInvalid) /\
   value_texts v = [] /\
   client_line_v0 cfg c =
   Some (inr (match c_prefix cfg with
@@ -260,7 +260,8 @@ Theorem empty_value_args : forall k a v,
   a = AVecU64 [] \/ a = AVecF64 [] \/ a = AVecDur [] \/ (exists v', a = AUser v' /\ empty_packed v').
 Proof.
   intros k a v Hv Hc.
-  destruct a as [z|z|n|n|t|d|l|l|l|u].
+  destruct a as [z|z|n|n|t|d|l|l|l|u|ue].
+  11: (destruct k; cbn [to_value] in Hv; discriminate).
   1-5: destruct k; cbn [to_value] in Hv; try discriminate; inversion Hv; subst v; cbn [mv_count] in Hc; discriminate.
   - destruct k; cbn [to_value] in Hv; try discriminate; unfold conv_dur in Hv;
       match type of Hv with context [if ?b then _ else _] => destruct b end; try discriminate;
@@ -286,7 +287,7 @@ Example v0_witness :
   client_line_v0 cfg c1 = client_line cfg c1 /\
   client_line cfg c1 = Some (inr [107; 58; 49; 58; 50; 48; 124; 109; 115]%N) /\
   client_line_v0 cfg c0 = Some (inr [107; 58; 124; 104; 124; 35; 116]%N) /\
-  client_line cfg c0 = Some (inl InvalidInput).
+  client_line cfg c0 = Some (inl EInvalid).
 Proof. vm_compute. repeat split. Qed.
 Print Assumptions v0_witness.
 
@@ -480,7 +481,7 @@ Section Floats.
 
   Theorem packed_floats_empty : forall cfg c,
     packed_float_kind (k_kind c) -> k_arg c = AVecF64 (map show []) ->
-    client_line cfg c = Some (inl InvalidInput).
+    client_line cfg c = Some (inl EInvalid).
   Proof.
     intros cfg c Hk Ha. rewrite client_line_cases, Ha. destruct Hk as [E|E]; rewrite E; reflexivity.
   Qed.
@@ -586,7 +587,8 @@ Definition arg_samples : list arg := builtin_args ++ [AUser (Signed 0)].
 Definition arg_index (a : arg) : nat :=
   match a with
   | AI64 _ => 0 | AI32 _ => 1 | AU64 _ => 2 | AU32 _ => 3 | AF64 _ => 4 | ADur _ => 5
-  | AVecU64 _ => 6 | AVecF64 _ => 7 | AVecDur _ => 8 | AUser _ => 9
+  | AVecU64 _ => 6 | AVecF64 _ => 7 | AVecDur _ => 8
+  | AUser _ | AUserErr _ => 9     (* a user-defined type, whatever its conversion returns *)
   end.
 Definition defined_pair (ka : kind * arg) : bool :=
   match to_value (fst ka) (snd ka) with Some _ => true | None => false end.
@@ -621,9 +623,9 @@ Proof. vm_compute. repeat split. Qed.
 Print Assumptions entry_point_counts.
 
 (* ================================================================== A.24  user-defined values *)
-(* a user-defined To*Value impl is modelled as returning Ok(v) always: a conversion error of
-   such a type is not representable; the only rejection of such a call is the empty packed
-   value (count check of MetricBuilder) *)
+(* a user-defined To*Value impl returning Ok(v) is [AUser v] (one returning Err(e) is
+   [AUserErr e], see Proofs/AuditU1.v): the only rejection of an [AUser] call is the empty
+   packed value (count check of MetricBuilder) *)
 Theorem user_value_never_conversion_error : forall k v e,
   to_value k (AUser v) = Some (inr v) /\ to_value k (AUser v) <> Some (inl e).
 Proof. intros k v e. cbn [to_value]. split; [reflexivity|discriminate]. Qed.
@@ -631,7 +633,7 @@ Print Assumptions user_value_never_conversion_error.
 
 Theorem user_value_rejected_iff : forall cfg c v,
   k_arg c = AUser v ->
-  (client_line cfg c = Some (inl InvalidInput) <-> empty_packed v) /\
+  (client_line cfg c = Some (inl EInvalid) <-> empty_packed v) /\
   (~ empty_packed v -> exists l, client_line cfg c = Some (inr l)) /\
   client_line cfg c <> None.
 Proof.
@@ -696,7 +698,7 @@ Print Assumptions empty_value_args_pin.
 
 Theorem user_value_rejected_iff_pin : forall cfg c v,
   k_arg c = AUser v ->
-  (client_line cfg c = Some (inl InvalidInput) <->
+  (client_line cfg c = Some (inl EInvalid) <->
      (v = PackedSigned [] \/ v = PackedUnsigned [] \/ v = PackedFloat [])) /\
   (~ (v = PackedSigned [] \/ v = PackedUnsigned [] \/ v = PackedFloat []) ->
      exists l, client_line cfg c = Some (inr l)) /\
